@@ -46,12 +46,17 @@ Definition dec_ok_result (s : sx) : option (list (member * extras) * bool) :=
   | _ => None
   end.
 
-(* archive/tar's own inverse gives back the view's mode; no sub-second part, no names *)
+(* archive/tar's own inverse gives back the view's mode; no sub-second part, no names.
+   A hard-link ('1') member carries no type: for the second name of a fifo / device inode the
+   inverse yields the permission and setuid/setgid/sticky bits only. *)
+Definition expected_gomode (s : stat) : N :=
+  if is_nil (st_linkname s) || mode_is_symlink (st_mode s) then st_mode s
+  else st_mode s - N.land (st_mode s) ModeType.
 Fixpoint extras_ok (l : list entry) (xs : list extras) : bool :=
   match l, xs with
   | [], [] => true
   | e :: l', x :: xs' =>
-    N.eqb (x_gomode x) (st_mode (fst e)) && N.eqb (x_nsec x) 0 && is_nil (x_uname x) && is_nil (x_gname x)
+    N.eqb (x_gomode x) (expected_gomode (fst e)) && N.eqb (x_nsec x) 0 && is_nil (x_uname x) && is_nil (x_gname x)
     && extras_ok l' xs'
   | _, _ => false
   end.
@@ -65,13 +70,15 @@ Fixpoint first_bad (l : list entry) (ms : list member) (i : N) : sx :=
 
 (* the specification evaluated on what the implementation produced for listing l *)
 Definition spec_archive (l : list entry) (closed : bool) (impl : sx) : bool * sx :=
-  if wf_listing_b l && forallb mtime_in_range l then
+  if wf_listing_wb l && forallb mtime_in_range l then
     match dec_ok_result impl with
     | Some (mx, trailer) =>
       let ms := map fst mx in
       let ok_m := members_match l ms in
       let ok_x := extras_ok l (map snd mx) in
-      let ok_l := negb closed || links_resolve ms in
+      (* "names an earlier REGULAR member" is only demanded where every link member is a second
+         name of a regular file (the narrow domain of the round-trip theorems) *)
+      let ok_l := negb (closed && wf_listing_b l) || links_resolve ms in
       (ok_m && ok_x && trailer && ok_l,
        if negb ok_m then first_bad l ms 0
        else if negb ok_l then SL [SB [100; 97; 110; 103; 108; 105; 110; 103]]   (* "dangling" *)
@@ -97,7 +104,9 @@ Definition run_1701 (input impl : sx) : sx :=
       let m := enc_result (write_tar view) in
       (* on a view whose links are closed the reset changes nothing: the expectation is the
          view's own walk, independently of the reset model *)
-      let l_spec := if links_closed l then l else reset_entries l in
+      (* (links_closed says nothing about second names of fifo / device inodes: outside the
+         narrow domain the expectation always goes through the reset model) *)
+      let l_spec := if links_closed l && wf_listing_b l then l else reset_entries l in
       let sp := spec_archive l_spec (links_closed l || resolvable l) impl in
       verdict m impl (fst sp) (snd sp)
     end
@@ -243,8 +252,9 @@ Definition run_1703 (input impl : sx) : sx :=
   end.
 
 (* kind 1704: the REAL on-disk walker under a filter with a Map table.
-   input = (view map-excluded-paths includes excludes): the harness materialises the view on
-   disk, takes an INDEPENDENT lstat/readlink/llistxattr snapshot with file contents, and runs
+   input = (view map-excluded-paths includes excludes [extra-links]): the harness materialises
+   the view on disk (then makes the extra hard links ((src dst)...): second names of fifos,
+   devices, symlinks, which the shared materialiser does not create), takes an INDEPENDENT lstat/readlink/llistxattr snapshot with file contents, and runs
    fsutil.NewFS(dir) -> NewFilterFS{Include, Exclude, Map: exclude the listed paths} -> WriteTar ->
    archive/tar reader.
    impl = (snapshot listed-paths archive-result pattern-table) | (#9) patterns rejected |
@@ -300,7 +310,7 @@ Definition selection_ok (full : list stat) (paths mexcl : list bytes) (nopat : b
 
 Definition run_1704 (input impl : sx) : sx :=
   match input, impl with
-  | SL [_; mt; inc; exc], SL [snapx; listed; res; pt] =>
+  | SL (_ :: mt :: inc :: exc :: _), SL [snapx; listed; res; pt] =>
     match sx_list C09G.dec_raw snapx, sx_list dec_raw_content snapx, sx_list sx_B listed with
     | Some snap, Some contents, Some paths =>
       match sx_list sx_B mt, sx_list sx_B inc, sx_list sx_B exc with
@@ -326,4 +336,46 @@ Definition run_1704 (input impl : sx) : sx :=
     | _, _, _ => v_malformed
     end
   | _, _ => v_malformed          (* (#9) patterns rejected, (#fffd msg) set-up failed: nothing to judge *)
+  end.
+
+(* kind 1705: a composite view (fsutil.SubDirFS over several mounts, each a MemFS) through WriteTar.
+   input = (((dirstat view) ...)); impl = archive result.  Expected listing, declaratively: the
+   mounts in byte order of their names; for each its directory stat (Path = the name) followed by
+   its own walk with the name put in front of every path and hard-link name (Model/Walk.prefix_stat,
+   the specification C09 validates for subDirFS.Walk); the bytes of "name/p" are the bytes of p in
+   THAT mount.  Nothing is claimed for names SubDirFS rejects or that are not plain names. *)
+Definition dec_mount (s : sx) : option (stat * list node) :=
+  match s with
+  | SL [st; v] => d <- dec_stat st ;; w <- dec_view v ;; Some (d, w)
+  | _ => None
+  end.
+Definition mount_entries (m : stat * list node) : list entry :=
+  (fst m, []) :: map (fun e => (Walk.prefix_stat (st_path (fst m)) (fst e), snd e)) (walk_root (snd m)).
+Definition mount_name_ok (n : bytes) : bool :=
+  negb (is_nil n) && negb (existsb (N.eqb sep) n) && negb (bytes_eqb n [46]) && negb (bytes_eqb n [46; 46]).
+Fixpoint distinct_names (l : list bytes) : bool :=
+  match l with
+  | [] => true
+  | x :: r => negb (existsb (bytes_eqb x) r) && distinct_names r
+  end.
+
+Definition run_1705 (input impl : sx) : sx :=
+  match input with
+  | SL [ms] =>
+    match sx_list dec_mount ms with
+    | Some mounts =>
+      let names := map (fun m => st_path (fst m)) mounts in
+      if forallb mount_name_ok names && distinct_names names
+         && forallb (fun m => mode_is_dir (st_mode (fst m))) mounts
+      then
+        let sorted := map snd (Walk.isort_kids (map (fun m => (st_path (fst m), m)) mounts)) in
+        let l := flat_map mount_entries sorted in
+        let m := enc_result (write_tar_listing l) in
+        let l_spec := if links_closed l && wf_listing_b l then l else reset_entries l in
+        let sp := spec_archive l_spec (links_closed l || resolvable l) impl in
+        verdict m impl (fst sp) (snd sp)
+      else v_malformed
+    | None => v_malformed
+    end
+  | _ => v_malformed
   end.
